@@ -20,8 +20,10 @@ MANIFEST = {
                 "start (no newline inside it), and an unterminated tail is reported with a NULL end (which Load skips); (2) contract of the field-splitting "
                 "statements of BuildLog::Load, sliced verbatim: for every line [start,end] with a newline at end, all reads/writes stay inside the line, "
                 "a record is produced only if four tabs were found before the newline, and then the output name is exactly the fourth field. (1) is loop-free given "
-                "the callee contracts and holds for all inputs (proof); (2) is checked for every line inside a 48-byte window (bounded: the string model's copy loop). NOT decided: last-record-wins in the map, recompaction, restat, "
-                "version handling, numeric round trip.",
+                "the callee contracts and holds for all inputs (proof); (2) is checked for every line inside a 48-byte window (bounded: the string model's copy loop). (3) writer side (real text of BuildLog::RecordCommand and BuildLog::Restat against contract stubs of WriteEntry, stdio, Stat and ReplaceContent; a log of three records): "
+                "RecordCommand gives every output of the command - explicit and implicit - the record just written (last record wins, existing records updated in place, others untouched) and appends and flushes one line per output; "
+                "`-t restat` of all or of a subset changes only the mtime of the selected records, rewrites the record of EVERY output exactly once into a temporary file with the version header and replaces the log once, "
+                "and never on an error. NOT decided: which record wins when Load reads duplicates, Recompact (attempted: the solver did not finish), version handling, numeric round trip of a record line.",
         "design_ref": "DESIGN.md 5 C08",
     },
     "level_note": "trusted: cbmc 6.11 C++ front end; callee CONTRACT STUBS for memchr (first occurrence, via ghost facts), memmove, memset, fread (any short read), "
@@ -231,6 +233,16 @@ def _build_split(mutant):
     return build
 
 
+def _writer_jobs(tier, mutant):
+    from props import buildlogunit
+    js = [buildlogunit.job("BuildLog.RecordCommand.contract", "buildlog_writer.cc", ["OP=0", "NENT=3", "SEL=0"], mutant, canaries=2, weight=60.0,
+                           bound="a log of 3 records; a command with outputs b (already recorded) and d (new), one of them possibly implicit; times, mtime, open/write failures symbolic")]
+    for sel in ((0, 1, 5) if tier == "quick" else (0, 1, 2, 3, 4, 5, 6, 7)):
+        js.append(buildlogunit.job("BuildLog.Restat.contract.sel%d" % sel, "buildlog_writer.cc", ["OP=1", "NENT=3", "SEL=%d" % sel], mutant, canaries=2, weight=10.0,
+                                   bound="a log of 3 records; restat of the subset mask %d (0 = all); Stat answers and every I/O failure symbolic" % sel))
+    return js
+
+
 def jobs(tier, mutant=None):
     return [
         Job("LineReader.ReadLine.contract", _build_reader(mutant), "proof", timeout=1800, canaries=4,
@@ -238,7 +250,7 @@ def jobs(tier, mutant=None):
         Job("BuildLog.Load.field_splitting.contract", _build_split(mutant), "bounded", timeout=1800, canaries=3,
             bound="every line [start,end] inside a 48-byte window, all contents and all memchr outcomes symbolic",
             functions=["BuildLog::Load (field-splitting statements)"], weight=5),
-    ]
+    ] + _writer_jobs(tier, mutant)
 
 
 from engine.selftest import subst  # noqa: E402
@@ -251,6 +263,11 @@ def _m(target, old, new):
 
 
 MUTANTS = [
+    ("restat_drops_unselected_records", _m("Restat", "    if (!skip) {\n      const TimeStamp mtime", "    if (skip) continue;\n    {\n      const TimeStamp mtime")),
+    ("restat_touches_unselected_mtime", _m("Restat", "bool skip = output_count > 0;", "bool skip = false;")),
+    ("log_replaced_after_stat_error", _m("Restat", "      if (mtime == -1) {\n        fclose(f);\n        return false;\n      }", "      if (mtime == -1) {\n        continue;\n      }")),
+    ("implicit_outputs_not_recorded", _m("RecordCommand", "out != edge->outputs_.end(); ++out) {", "out != edge->outputs_.end() - edge->implicit_outs_; ++out) {")),
+    ("record_not_flushed", _m("RecordCommand", "      if (fflush(log_file_) != 0) {\n          return false;\n      }\n", "")),
     ("refill_overruns_buffer", _m("reader", "sizeof(buf_) - size_rest, file_);", "sizeof(buf_), file_);")),
     ("next_line_starts_on_newline", _m("reader", "line_start_ = line_end_ + 1;", "line_start_ = line_end_;")),
     ("rest_length_wrong", _m("reader", "size_t size_rest = (buf_end_ - buf_) - already_consumed;", "size_t size_rest = (buf_end_ - buf_);")),
@@ -280,7 +297,7 @@ def describe(tier):
             "the splitter is checked on lines inside a 48-byte window (pointer arithmetic is position-independent)",
             "Load's loop, the entries_ map (last record per output wins), sscanf of the version line, LOAD_NOT_FOUND on a wrong version, Recompact/Restat: outside the unit",
         ],
-        "silent": ["last record per output wins", "recompaction keeps the latest record of live outputs", "-t restat changes only mtimes",
+        "silent": ["which record wins when Load reads duplicate lines", "recompaction keeps the latest record of live outputs (Recompact not under contract)",
                    "unsupported version discarded with a warning", "a merged line can only look out of date (needs hash semantics)"],
         "explanation": "Per-call contracts of the line reader and of the field splitter on sliced real text with callee contracts; loop-free, complete.",
     }
